@@ -22,6 +22,9 @@
 //	c07.nofont <dataHex>                -> scalars of the fragment text of `<data> Tj` with no font
 //	c07.render <flags/wrap> <form> <w> <runs> -> hex of the program the independent writer renders
 //	c07.entries <form> <runs>           -> the code:text entries the program specifies
+//	c07.rprog <flags/wrap> <w> <sections>  -> hex of the program for any arrangement of entries into sections (spec.go)
+//	c07.spec <w> <sections> <dataHex>   -> scalars of LookupString(data) of that program: the specification on EVERY byte string
+//	c07.spectext <sections> <code>      -> scalars of Lookup(code): the specified text of a code, - = undefined
 //	c07.ext <objects> <pageResHex|~> <contentHex> <nfc table>
 //	                                    -> ok <texts of all fragments in show order, before de-duplication> | err
 //
@@ -45,6 +48,7 @@ func Run(c *hx.Ctx) {
 		"generated: code->text maps (1-300 entries, code width 1-4, targets ASCII/BMP/ligature/multi-char/combining/astral) rendered by an " +
 		"independent CMap writer under every formatting policy (bfchar lines / one line / bfrange offset / bfrange array / arrays spanning lines; LF, CRLF), " +
 		"the same maps as arbitrary arrangements of entries (each run whole or cut in two, each part as bfchar entries, an offset-target or an array-target bfrange entry; entries ascending, descending, rotated or shuffled; sections of 1-100 entries alternating between bfchar and bfrange or grouped, array and offset targets sharing sections or not; for maps of three short runs exhaustively every assignment of entry forms x every order of the entries x one section per entry or as few as possible), " +
+		"arrangements whose data also hold codes nobody defines (surrogate and > U+10FFFF numbers included) and a remainder shorter than one code, half of them defining a code twice (a second bfchar entry, a second range, an array over an offset range) against the specification of a whole program (ops c07.rprog / c07.spec / c07.spectext), " +
 		"mutated (malformed) programs, scalar strings through UTF-16BE/LE (all scalars swept), byte strings through (*Font).DecodeString and text.Extractor, " +
 		"every name of an independent excerpt of the Adobe Glyph List (and names outside the list) through the package's glyph list, fonts with a Differences map (characters of the glyph list, arbitrary scalars, combining marks, rune 0 and invalid runes; with and without a ToUnicode CMap beside it) through DecodeString, font dictionaries whose /Encoding dictionary has /Differences (1-4 runs of Adobe Glyph List names and of names outside the list, runs naming a code again, with or without /BaseEncoding, Type1 and TrueType) in the documents below, one-page PDFs (TrueType font with /Encoding and /ToUnicode) through tabula.Open(f).Fragments(), " +
 		"one-page PDFs with 2-4 font dictionaries (TrueType/Type1/Type0; sharing one BaseFont or not; each with its own ToUnicode and/or /Encoding, the same codes mapped differently; " +
@@ -57,6 +61,7 @@ func Run(c *hx.Ctx) {
 	runCMaps(c)
 	runCMapLayoutsSmall(c)
 	runCMapLayouts(c)
+	runCMapSpec(c)
 	runMalformed(c)
 	runFonts(c)
 	runDifferences(c)
